@@ -89,6 +89,10 @@ pub struct Case {
     /// addresses the channel by its permanent id
     #[serde(default)]
     pub perm_restart: bool,
+    /// API group: the signer runs with OnchainValidatorFactory (vlsd's default) and the channel's
+    /// funding transaction is confirmed on the tracker's chain
+    #[serde(default)]
+    pub onchain: bool,
 }
 
 fn hsel_strat() -> impl Strategy<Value = HSel> {
@@ -276,9 +280,10 @@ impl Prop for C04 {
         (
             (any::<bool>(), any::<bool>(), delay.clone(), delay, 0u8..4, any::<u8>(), prop_oneof![Just(0u16), Just(1u16), Just(65535u16), any::<u16>()]),
             (0u8..3, 0u8..3, 0u8..3, proptest::collection::vec(hsel_strat(), 0..5)),
-            (prop::bool::weighted(0.1), prop::bool::weighted(0.3), mutation_strat(), prop_oneof![12 => Just(None), 1 => Just(Some(0u8)), 1 => Just(Some(1u8))], prop::bool::weighted(0.15)),
+            (prop::bool::weighted(0.1), prop::bool::weighted(0.3), mutation_strat(), prop_oneof![12 => Just(None), 1 => Just(Some(0u8)), 1 => Just(Some(1u8))], prop::bool::weighted(0.15), prop::bool::weighted(0.35)),
         )
-            .prop_map(|((anchors, outbound, holder_delay, cp_delay, peer, dbid, vout), (value_sel, fee, to_cp, htlcs), (retry0, phase2, mutation, wire, perm_restart))| Case {
+            .prop_map(|((anchors, outbound, holder_delay, cp_delay, peer, dbid, vout), (value_sel, fee, to_cp, htlcs), (retry0, phase2, mutation, wire, perm_restart, onchain))| Case {
+                onchain: onchain && wire.is_none(),
                 anchors, outbound, holder_delay, cp_delay, peer, dbid, vout, value_sel, fee, to_cp, htlcs, retry0, phase2, mutation, wire, perm_restart,
             })
             .boxed()
@@ -291,7 +296,8 @@ impl Prop for C04 {
         if let Some(enc) = case.wire {
             return self.run_wire(case, enc, st, ctx);
         }
-        let mut w = World::new(WorldCfg::default_testnet());
+        let mut w = if case.onchain { World::new_onchain(WorldCfg::default_testnet()) } else { World::new(WorldCfg::default_testnet()) };
+        st.class(if case.onchain { "onchain-factory" } else { "simple-factory" });
         let value = [3_000_000u64, 100_000, 16_000_000][case.value_sel as usize % 3];
         let spec = ChanSpec {
             dbid: case.dbid as u64 + 1,
@@ -310,12 +316,18 @@ impl Prop for C04 {
                 o => panic!("new_stub failed: {}", o.err_msg()),
             };
             w.chans[ci].perm_id = Some(lightning_signer::channel::ChannelId::new(&[0x70, 0x65, 0x72, 0x6d, case.dbid, case.peer, 1, 2, 3]));
+            let ftx = if case.onchain { Some(crate::chainpool::funding_tx_for(&mut w, ci)) } else { None };
             match w.setup_chan(ci) {
                 Out::Ok(()) => {}
                 o => panic!("setup_chan failed: {}", o.err_msg()),
             }
+            if let Some(ftx) = &ftx {
+                crate::chainpool::confirm_tx(&mut w, ftx, 1);
+            }
             st.class("perm_id_and_restart");
             ci
+        } else if case.onchain {
+            crate::chainpool::open_confirmed(&mut w, &spec).0
         } else {
             w.open(&spec)
         };
